@@ -230,12 +230,12 @@ def link_layer_ltssm(freq, connections=True):
     """connections=False: only the instance-parameter obligation (the connections do not depend on the clock parameter)."""
     def contract(c):
         from .c37_header_receive import LinkLayerUnits
-        from .c46_ss_in_endpoint import instance_is_contracted_unit, stream_same
+        from .c46_ss_in_endpoint import instance_is_contracted_unit, stream_same, path_of
         U = LinkLayerUnits(c, freq)
         of, S, ltssm, phy = U.of, U.S, U.ltssm, U.phy
         unit = lambda key: getattr(U, key[0])
         ref = LTSSMController(ss_clock_frequency=freq)      # the configuration proved below: this clock, loosened (the class default)
-        instance_is_contracted_unit(c, U.ts, "ltssm", ltssm, ref, PORTS_IN, PORTS_OUT, "ltssm_ref",
+        instance_is_contracted_unit(c, U.ts, path_of(U.ts, ltssm), ltssm, ref, PORTS_IN, PORTS_OUT, "ltssm_ref",
                                     clause="Each training, recovery and inactive substate ... is left no later than that timeout: the LTSSM "
                                            "instance of the link layer is LTSSMController(ss_clock_frequency = the link layer's clock, loosened)")
         if not connections:
